@@ -96,7 +96,7 @@ def io_outcomes(f, prim):
             own_ = q.no_casts(f.r(o_)) + ("->" if me_.get("arrow") else ".")
             val[own_ + "_suspended"] = 0
             val[own_ + "_sendBuffer.isEmpty()"] = 0
-        seen, end = fin.walk(f, start, val)
+        seen, end, _fv = fin.walk_vals(f, start, val, stop_at_loop_back=True)      # follows flag locals such as `connectionLost`
         # only what follows the call in its own block counts
         if call in seen:
             seen = seen[seen.index(call):]
